@@ -5,6 +5,7 @@ import (
 	"fmt"
 	"os"
 	"path/filepath"
+	"runtime"
 	"sort"
 	"strings"
 	"time"
@@ -24,6 +25,7 @@ type c12Decl struct {
 	Com, Price, Tgt string
 	Day             int  // days stream only
 	Empty           bool // days stream only: some other directive on that day (no price)
+	File            int  // shared stream only: the included file f<File>.knut holding the directive
 }
 
 type c12Query struct{ Com, Amount string }
@@ -34,6 +36,11 @@ type c12Case struct {
 	Decls   []c12Decl
 	V       string
 	Queries []c12Query
+	// shared stream only: the journal is root.knut including Files files f0..f<Files-1>; Parents[f] = the file whose first
+	// lines include f (-1 = root.knut); PreV: the valuation commodity is registered before loading (as the flag -v does)
+	Files   int
+	Parents []int
+	PreV    bool
 }
 
 func (k c12Case) input() map[string]any {
@@ -44,10 +51,25 @@ func (k c12Case) input() map[string]any {
 		} else {
 			ds[i] = map[string]any{"com": d.Com, "price": d.Price, "tgt": d.Tgt, "day": d.Day}
 		}
+		if k.Files > 1 {
+			ds[i].(map[string]any)["file"] = d.File
+		}
 	}
 	qs := make([]any, len(k.Queries))
 	for i, q := range k.Queries {
 		qs[i] = map[string]any{"com": q.Com, "amount": q.Amount}
+	}
+	if k.Files > 1 {
+		ps := make([]any, len(k.Parents))
+		for i, p := range k.Parents {
+			ps[i] = p
+		}
+		tree := map[string]any{}
+		for name, text := range c12TreeFiles(k) {
+			tree[name] = text
+		}
+		return map[string]any{"shape": k.Shape, "v": k.V, "decls": ds, "queries": qs, "files": k.Files, "parents": ps, "pre_v": k.PreV, "tree": tree,
+			"load": "journal.FromPath(root.knut) with a fresh registry, repeated under GOMAXPROCS 16/2/4/8; the included files are converted concurrently"}
 	}
 	return map[string]any{"shape": k.Shape, "v": k.V, "decls": ds, "queries": qs, "journal": c12Journal(k)}
 }
@@ -83,9 +105,22 @@ func c12CaseFromInput(in map[string]any) c12Case {
 				d.Day = int(f)
 			}
 			d.Empty, _ = m["empty"].(bool)
+			if f, ok := m["file"].(float64); ok {
+				d.File = int(f)
+			}
 			k.Decls = append(k.Decls, d)
 		}
 	}
+	if f, ok := in["files"].(float64); ok {
+		k.Files = int(f)
+	}
+	if ps, ok := in["parents"].([]any); ok {
+		for _, x := range ps {
+			f, _ := x.(float64)
+			k.Parents = append(k.Parents, int(f))
+		}
+	}
+	k.PreV, _ = in["pre_v"].(bool)
 	if qs, ok := in["queries"].([]any); ok {
 		for _, x := range qs {
 			m, _ := x.(map[string]any)
@@ -546,8 +581,13 @@ func c12Around(k c12Case) []c12Case {
 }
 
 func runC12(c *Ctx) {
+	// C12_STREAMS=a,b restricts a full run to some streams (development aid)
+	on := func(st string) bool {
+		only := os.Getenv("C12_STREAMS")
+		return c.Replay || only == "" || strings.Contains(","+only+",", ","+st+",")
+	}
 	// decimal arithmetic the model relies on (Mul, Truncate, Div, String) against shopspring
-	if !c.Replay || c.OnlyStr == "dec" {
+	if (!c.Replay && on("dec")) || c.OnlyStr == "dec" {
 		runDecStream(c, c.N(3000, 60000))
 	}
 	bt := c.NewBatch()
@@ -559,13 +599,16 @@ func runC12(c *Ctx) {
 		c.c12RunCase(bt, stream, idx, k, c.Rng(stream, idx))
 		return
 	}
-	if c.Replay && c.ReplayInput != nil && (c.OnlyStr == "days" || c.OnlyStr == "requote") {
+	if c.Replay && c.ReplayInput != nil && (c.OnlyStr == "days" || c.OnlyStr == "requote" || c.OnlyStr == "shared") {
 		k := c12CaseFromInput(c.ReplayInput)
 		stream, idx := c.OnlyStr, c.OnlyIndex
 		c.Replay = false
 		c.c12DaysCase(bt, stream, idx, k)
 		if stream == "requote" && idx%c12BalanceEvery == 0 {
 			c.c12BalanceCase(stream, idx, k)
+		}
+		if stream == "shared" && idx%c12BalanceEvery == 0 {
+			c.c12SharedBalanceCase(stream, idx, k)
 		}
 		return
 	}
@@ -576,7 +619,7 @@ func runC12(c *Ctx) {
 		malformed bool
 	}{{"graph", c.N(12000, 250000), false}, {"malformed", c.N(3000, 60000), true}} {
 		for i := 0; i < st.n; i++ {
-			if !c.Want(st.name, i) {
+			if !c.Want(st.name, i) || !on(st.name) {
 				continue
 			}
 			r := c.Rng(st.name, i)
@@ -608,7 +651,7 @@ func runC12(c *Ctx) {
 	// ---- per-day normalisation through journal.Builder and journal.ComputePrices
 	nd := c.N(3000, 50000)
 	for i := 0; i < nd; i++ {
-		if !c.Want("days", i) {
+		if !c.Want("days", i) || !on("days") {
 			continue
 		}
 		r := c.Rng("days", i)
@@ -634,13 +677,27 @@ func runC12(c *Ctx) {
 	// day (same or inverse direction) or on another date; every c12BalanceEvery-th journal also through `knut balance -v`
 	nq := c.N(2500, 40000)
 	for i := 0; i < nq; i++ {
-		if !c.Want("requote", i) {
+		if !c.Want("requote", i) || !on("requote") {
 			continue
 		}
 		k := c12GenRequote(c.Rng("requote", i))
 		c.c12DaysCase(bt, "requote", i, k)
 		if i%c12BalanceEvery == 0 {
 			c.c12BalanceCase("requote", i, k)
+		}
+	}
+	bt.Flush()
+	// ---- one price history spread over 2-8 included files which all introduce the same new commodities at the same moment
+	// (the files are converted concurrently through one registry); loaded repeatedly, every load compared and monitored like a days case
+	ns := c.N(500, 6000)
+	for i := 0; i < ns; i++ {
+		if !c.Want("shared", i) || !on("shared") {
+			continue
+		}
+		k := c12GenShared(c.Rng("shared", i))
+		c.c12DaysCase(bt, "shared", i, k)
+		if i%c12BalanceEvery == 0 {
+			c.c12SharedBalanceCase("shared", i, k)
 		}
 	}
 }
@@ -658,9 +715,16 @@ func (c *Ctx) c12DaysCase(bt *Batch, stream string, i int, k c12Case) {
 		isNil bool
 	}
 	var days []dayOut
-	viaFile := c.WorkDir != "" && i%3 == 0
+	// an include tree (stream shared): root.knut + its included files, written once, loaded repeatedly
+	multi := k.Files > 1 && c.WorkDir != ""
+	viaFile := c.WorkDir != "" && (i%3 == 0 || multi)
 	if viaFile {
 		c.Tag("days-via-file")
+	}
+	treeRoot := ""
+	if multi {
+		c.Tag("days-via-include-tree")
+		treeRoot = c12WriteTree(filepath.Join(c.WorkDir, "c12shared"), k)
 	}
 	impl := func() (answer string) {
 		defer func() {
@@ -678,7 +742,16 @@ func (c *Ctx) c12DaysCase(bt *Batch, stream string, i int, k c12Case) {
 			return cm
 		}
 		var jb *journal.Builder
-		if viaFile {
+		if k.PreV {
+			com(k.V)
+		}
+		if multi {
+			// the whole loading pipeline on an include tree: the files are parsed and converted concurrently, one shared registry
+			var err error
+			if jb, err = journal.FromPath(context.Background(), reg, treeRoot); err != nil {
+				return "load-error " + err.Error()
+			}
+		} else if viaFile {
 			// the whole loading pipeline: file -> parser -> price.Create -> journal.Builder
 			var tb strings.Builder
 			for n, d := range k.Decls {
@@ -721,6 +794,9 @@ func (c *Ctx) c12DaysCase(bt *Batch, stream string, i int, k c12Case) {
 				b.WriteString("|nil")
 			} else {
 				for cm, p := range d.Normalized {
+					if _, dup := o.table[cm.Name()]; dup && cm != com(cm.Name()) {
+						continue // two entries of one name: the one of the registered commodity is reported
+					}
 					o.table[cm.Name()] = p.String()
 				}
 				for _, q := range k.Queries {
@@ -739,9 +815,29 @@ func (c *Ctx) c12DaysCase(bt *Batch, stream string, i int, k c12Case) {
 	firstDays := days
 	bt.Add(func(model string) { c.Compare(stream, i, "c12days", in, first, model) },
 		"c12days", Hex(k.V), c12DeclsField(k.Decls, true), c12QueriesField(k.Queries))
-	for j := 1; j < c.N(2, 4); j++ {
-		again := impl()
-		c.Monitor(stream, i, "C12_order_irrelevant(repeated runs give the same prices)", in, again == first, "run 0: "+first+" run "+itoa(j)+": "+again)
+	reps := c.N(2, 4)
+	if multi {
+		reps = c.N(8, 16)
+	}
+	// runs whose answer differs from run 0 (only a schedule can make them differ): their tables are monitored like those of run 0
+	type otherRun struct {
+		run    int
+		answer string
+		days   []dayOut
+	}
+	var others []otherRun
+	for j := 1; j < reps; j++ {
+		var again string
+		if multi { // the natural schedule with few and with many processors
+			old := runtime.GOMAXPROCS([]int{16, 2, 4, 8}[j%4])
+			again = impl()
+			runtime.GOMAXPROCS(old)
+		} else {
+			again = impl()
+		}
+		if !c.Monitor(stream, i, "C12_order_irrelevant(repeated runs give the same prices)", in, again == first, "run 0: "+first+" run "+itoa(j)+": "+again) && len(others) < 2 {
+			others = append(others, otherRun{j, again, days})
+		}
 	}
 	// "a zero price is rejected", stated on the real outcome of the journal: a journal holding a zero price directive
 	// must fail wherever that directive stands (first, last, re-quoted later the same day or on a later day, either
@@ -782,6 +878,28 @@ func (c *Ctx) c12DaysCase(bt *Batch, stream string, i int, k c12Case) {
 	}
 	sort.SliceStable(sorted, func(a, b int) bool { return sorted[a].Day < sorted[b].Day })
 	nilDays, carried := 0, 0
+	for _, o := range others {
+		if !strings.HasPrefix(o.answer, "ok") {
+			continue
+		}
+		for _, d := range o.days {
+			var prefix []c12Decl
+			for _, x := range sorted {
+				if x.Day <= d.day {
+					prefix = append(prefix, x)
+				}
+			}
+			d := d
+			in2 := map[string]any{"case": in, "day": d.day, "date": dayTime(d.day).Format("2006-01-02"), "run": o.run}
+			if len(prefix) == 0 || d.isNil {
+				c.Monitor(stream, i, "no table exactly before the first price", in2, d.isNil == (len(prefix) == 0), fmt.Sprintf("nil=%v declarations so far=%d", d.isNil, len(prefix)))
+				continue
+			}
+			bt.Add(func(mon string) {
+				c.Monitor(stream, i, "priceOK(day)", in2, mon == "ok", "table "+c12ShowTable(d.table)+" => "+mon)
+			}, "c12mon", Hex(k.V), c12DeclsField(prefix, false), c12TableField(d.table))
+		}
+	}
 	for _, d := range firstDays {
 		var prefix []c12Decl
 		own := false
@@ -805,7 +923,14 @@ func (c *Ctx) c12DaysCase(bt *Batch, stream string, i int, k c12Case) {
 			c.Monitor(stream, i, "priceOK(day)", in2, mon == "ok", "table "+c12ShowTable(d.table)+" => "+mon)
 		}, "c12mon", Hex(k.V), c12DeclsField(prefix, false), c12TableField(d.table))
 	}
-	c.Class(fmt.Sprintf("c12days/%s/days%s/nil%v/carried%v/file%v", k.Shape, bucket(len(firstDays)), nilDays > 0, carried > 0, viaFile))
+	if len(others) > 0 {
+		bt.Flush() // so that the verdicts of priceOK(day) on the differing runs are recorded next to the difference
+	}
+	if multi {
+		c.Class(fmt.Sprintf("c12shared/%s/n%s/files%d/days%s/nil%v/carried%v", k.Shape, bucket(len(k.Names)), k.Files, bucket(len(firstDays)), nilDays > 0, carried > 0))
+	} else {
+		c.Class(fmt.Sprintf("c12days/%s/days%s/nil%v/carried%v/file%v", k.Shape, bucket(len(firstDays)), nilDays > 0, carried > 0, viaFile))
+	}
 	if i < 2 {
 		c.Sample(map[string]any{"stream": stream, "input": in, "impl": first})
 	}
@@ -1050,4 +1175,249 @@ func c12FirstLine(s string) string {
 		return s[:j]
 	}
 	return s
+}
+
+// ---------------------------------------------------------------- stream shared: one price history spread over included files
+
+// c12TreeFiles renders a shared case as its files: root.knut and f0.knut .. f<Files-1>.knut. A file starts with the include
+// directives of its children (so that they are read while the parent is still being parsed), then holds its own directives
+// in the order of k.Decls (File -1 = root.knut).
+func c12TreeFiles(k c12Case) map[string]string {
+	name := func(f int) string {
+		if f < 0 {
+			return "root.knut"
+		}
+		return fmt.Sprintf("f%d.knut", f)
+	}
+	texts := map[int]*strings.Builder{-1: {}}
+	for f := 0; f < k.Files; f++ {
+		texts[f] = &strings.Builder{}
+	}
+	for f := 0; f < k.Files; f++ {
+		p := -1
+		if f < len(k.Parents) && k.Parents[f] >= 0 && k.Parents[f] < k.Files && k.Parents[f] != f {
+			p = k.Parents[f]
+		}
+		fmt.Fprintf(texts[p], "include \"%s\"\n", name(f))
+	}
+	for n, d := range k.Decls {
+		b, ok := texts[d.File]
+		if !ok {
+			b = texts[-1]
+		}
+		if d.Empty {
+			fmt.Fprintf(b, "%s open Assets:Marker%d\n", dayTime(d.Day).Format("2006-01-02"), n)
+		} else {
+			fmt.Fprintf(b, "%s price %s %s %s\n", dayTime(d.Day).Format("2006-01-02"), d.Com, d.Price, d.Tgt)
+		}
+	}
+	out := map[string]string{}
+	for f, b := range texts {
+		out[name(f)] = b.String()
+	}
+	return out
+}
+
+// c12WriteTree writes the files of a shared case into dir (emptied first) and returns the path of root.knut.
+func c12WriteTree(dir string, k c12Case) string {
+	os.RemoveAll(dir)
+	if err := os.MkdirAll(dir, 0o755); err != nil {
+		panic(err)
+	}
+	for name, text := range c12TreeFiles(k) {
+		if err := os.WriteFile(filepath.Join(dir, name), []byte(text), 0o644); err != nil {
+			panic(err)
+		}
+	}
+	return filepath.Join(dir, "root.knut")
+}
+
+// c12GenShared: a price graph of 2-40 commodities (all new to the registry when loading starts) whose history is spread over
+// 2-8 included files. Every file quotes the pairs of the graph in the SAME order (each pair in every file, for larger graphs
+// in about half of them), so all files mention the same not-yet-registered commodities in their first directives, at the same
+// moment; the quotes of one pair stand on different dates in different files (never the same pair twice on one date, so the
+// order in which the loader delivers the files cannot matter), in either direction. Files are siblings under root.knut, or
+// (a quarter of the cases) some are included from another included file. Optional: a zero quote, dates without a price,
+// the valuation commodity registered before loading.
+func c12GenShared(r *RNG) c12Case {
+	var n int
+	switch s := r.Intn(25); {
+	case s < 12:
+		n = r.Range(2, 7)
+	case s < 23:
+		n = r.Range(8, 16)
+	default:
+		n = r.Range(17, 40)
+	}
+	shape := Pick(r, c12Shapes)
+	if n > 7 && (shape == "complete" || shape == "ladder" || shape == "sparse") {
+		shape = Pick(r, []string{"tree", "cycle", "triangle"})
+	}
+	if n > 16 {
+		shape = Pick(r, []string{"line", "star", "tree", "two-components"})
+	}
+	var names []string
+	if n <= len(c12NamePool) {
+		names = c12Names(r, n)
+	} else {
+		names = c12Names(r, len(c12NamePool))
+		for j := len(names); j < n; j++ {
+			names = append(names, fmt.Sprintf("%s%d", Pick(r, []string{"K", "AA", "x", "Ä"}), j))
+		}
+	}
+	k := c12Case{Shape: shape + "/shared", Names: names}
+	// the pairs, each unordered pair once
+	type pair struct{ a, b int }
+	var pairs []pair
+	seen := map[pair]bool{}
+	for _, e := range c12Graph(r, shape, n) {
+		a, b := e[0]%n, e[1]%n
+		if a > b {
+			a, b = b, a
+		}
+		if !seen[pair{a, b}] {
+			seen[pair{a, b}] = true
+			pairs = append(pairs, pair{a, b})
+		}
+	}
+	for j := len(pairs) - 1; j > 0; j-- {
+		m := r.Intn(j + 1)
+		pairs[j], pairs[m] = pairs[m], pairs[j]
+	}
+	k.Files = r.Range(2, 8)
+	k.Parents = make([]int, k.Files)
+	nested := r.Chance(1, 4)
+	for f := range k.Parents {
+		k.Parents[f] = -1
+		if nested && f > 0 && r.Bool() {
+			k.Parents[f] = r.Intn(f)
+		}
+	}
+	// date slots: at least one per file, so that the quotes of a pair (one per file at most) get different dates
+	base := 737000 + r.Intn(1000)
+	slots := make([]int, k.Files+r.Intn(3))
+	gap := r.Range(1, 3)
+	for j := range slots {
+		slots[j] = base + j*gap
+	}
+	for j := len(slots) - 1; j > 0; j-- {
+		m := r.Intn(j + 1)
+		slots[j], slots[m] = slots[m], slots[j]
+	}
+	offs := make([]int, len(pairs))
+	for j := range offs {
+		offs[j] = r.Intn(len(slots))
+	}
+	for f := 0; f < k.Files; f++ {
+		for j, p := range pairs {
+			// small graphs: every pair in every file; larger ones: in the first file and about half of the others
+			if n > 7 && f > 0 && r.Bool() {
+				continue
+			}
+			a, b := p.a, p.b
+			if r.Bool() {
+				a, b = b, a
+			}
+			k.Decls = append(k.Decls, c12Decl{Com: names[a], Price: c12Price(r, false), Tgt: names[b], Day: slots[(f+offs[j])%len(slots)], File: f})
+		}
+	}
+	if len(k.Decls) > 0 && r.Chance(1, 25) {
+		k.Decls[r.Intn(len(k.Decls))].Price = c12OddPrice(r, "zero")
+		k.Shape += "/zero"
+	}
+	// dates without a price, in any file or in root.knut
+	for j := r.Intn(3); j > 0; j-- {
+		k.Decls = append(k.Decls, c12Decl{Day: base - 2 + r.Intn(len(slots)*gap+4), Empty: true, File: r.Intn(k.Files+1) - 1})
+	}
+	k.V = Pick(r, names)
+	if r.Chance(1, 12) {
+		k.V = "NOWHERE"
+	}
+	k.PreV = r.Bool()
+	for _, c := range names {
+		k.Queries = append(k.Queries, c12Query{c, "1"})
+	}
+	k.Queries = append(k.Queries, c12Query{"UNKNOWN", "1"})
+	return k
+}
+
+// c12SharedBalanceCase: the include tree of a shared case given to the knut binary, with one unit of every commodity of
+// the graph booked (root.knut, after all quotes) on its own account: `knut balance -v V root.knut` under the natural
+// schedule and under the scheduling hook (KNUT_VERIF_SEED), with 2 and 16 processors. Valuation fails exactly when a
+// zero price was declared (invalid price) or some booked commodity is not connected to V by declarations (no price found).
+func (c *Ctx) c12SharedBalanceCase(stream string, i int, k c12Case) {
+	if c.KnutBin == "" || c.WorkDir == "" || k.Files < 2 {
+		return
+	}
+	// connected to V by declarations (harness side, union-find over the names)
+	parent := map[string]string{}
+	var find func(x string) string
+	find = func(x string) string {
+		if p, ok := parent[x]; ok && p != x {
+			r := find(p)
+			parent[x] = r
+			return r
+		}
+		return x
+	}
+	last, priced := 0, 0
+	for _, d := range k.Decls {
+		if d.Day > last {
+			last = d.Day
+		}
+		if !d.Empty {
+			priced++
+			parent[find(d.Com)] = find(d.Tgt)
+		}
+	}
+	if priced == 0 {
+		return
+	}
+	var unconnected []string
+	var extra strings.Builder
+	first := 737000 - 400
+	fmt.Fprintf(&extra, "%s open Equity:Opening\n", dayTime(first).Format("2006-01-02"))
+	for j := range k.Names {
+		fmt.Fprintf(&extra, "%s open Assets:P%d\n", dayTime(first).Format("2006-01-02"), j)
+	}
+	for j, n := range k.Names {
+		fmt.Fprintf(&extra, "\n%s \"position\"\nEquity:Opening Assets:P%d 1 %s\n", dayTime(last+1).Format("2006-01-02"), j, n)
+		if find(n) != find(k.V) {
+			unconnected = append(unconnected, n)
+		}
+	}
+	dir := filepath.Join(c.WorkDir, "c12sharedbin")
+	root := c12WriteTree(dir, k)
+	text, err := os.ReadFile(root)
+	if err != nil {
+		panic(err)
+	}
+	if err := os.WriteFile(root, append(text, extra.String()...), 0o644); err != nil {
+		panic(err)
+	}
+	in := k.input()
+	in["positions"] = extra.String()
+	in["command"] = "knut balance -v " + k.V + " --color=false root.knut (root.knut = the includes and directives of the tree followed by `positions`)"
+	zero := c12HasZero(k)
+	for run, env := range [][]string{{"GOMAXPROCS=16"}, {"GOMAXPROCS=2"},
+		{"GOMAXPROCS=16", fmt.Sprintf("KNUT_VERIF_SEED=%d", c.Seed*7919+uint64(i)*31+1)}, {"GOMAXPROCS=2", fmt.Sprintf("KNUT_VERIF_SEED=%d", c.Seed*7919+uint64(i)*31+2)}} {
+		code, _, stderr := runKnut(c.KnutBin, 30*time.Second, env, "balance", "-v", k.V, "--color=false", root)
+		if code == -2 {
+			c.Tag("balance-timeout-skipped")
+			continue
+		}
+		c.Evals++
+		c.Tag("shared-balance-v-binary")
+		var ok bool
+		switch {
+		case zero:
+			ok = code != 0 && strings.Contains(stderr, "invalid price")
+		case len(unconnected) > 0:
+			ok = code != 0 && strings.Contains(stderr, "no price found")
+		default:
+			ok = code == 0
+		}
+		c.Monitor(stream, i, "knut balance -v on the include tree: fails exactly for a zero price (invalid price) or a booked commodity not connected to V (no price found)", in, ok,
+			fmt.Sprintf("run %d env %v: exit %d stderr %q; zero price directives: %s; booked commodities not connected to %s: %v", run, env, code, c12FirstLine(stderr), c12ZeroDirectives(k), k.V, unconnected))
+	}
 }
